@@ -212,7 +212,8 @@ CLAIMS = {
                  "ResNetwork; current-flow kernels applicable; no conjugating "
                  "product in the defining sums; no path of update_resistances "
                  "returns before the rebuild (a 'nothing changed' shortcut is sound "
-                 "only against a private copy)."),
+                 "only against a private copy); a positional read of the flat "
+                 "pair store uses the triangle order it is filled in (Z6)."),
         "note": "Does NOT decide the circuit laws (metric, Foster, series/parallel).",
         "technique": "ordering/def-use rules over Python ast, reuse of the cache-coherence analysis",
     },
